@@ -319,8 +319,12 @@ func c18Judge(c *predCase, sh c18Shape) (f *core.Failure, nontrivial bool, obser
 		return mk(out.Status(), "the statement executes") /*observed has the log*/, false, observed
 	}
 	if sh.unsat {
-		if len(st.Log) != 0 {
-			return mk("reads-for-unsatisfiable-clause", "no storage call at all"), true, observed
+		// "reads nothing at all": no point read and no cursor step (creating or
+		// positioning a cursor that is never advanced reads no key)
+		for _, op := range st.Log {
+			if op.Kind != "Cursor" && op.Kind != "Seek" {
+				return mk("reads-for-unsatisfiable-clause", "no read at all (no Get, no cursor step)"), true, observed
+			}
 		}
 		return nil, len(c.Store) > 0, observed
 	}
@@ -338,7 +342,7 @@ func c18Judge(c *predCase, sh c18Shape) (f *core.Failure, nontrivial bool, obser
 		case "Get":
 			gets = append(gets, op.Args[0])
 		case "Cursor", "Seek":
-			cursor = true
+			// (a cursor that is never advanced is no scan)
 		case "Next":
 			cursor = true
 			if !op.EOF {
@@ -354,7 +358,7 @@ func c18Judge(c *predCase, sh c18Shape) (f *core.Failure, nontrivial bool, obser
 	}
 	if len(keyPins) > 0 {
 		if cursor {
-			return mk("scan-instead-of-point-reads", "point reads (Get) of the pinned keys only, no cursor"), true, observed
+			return mk("scan-instead-of-point-reads", "point reads (Get) of the pinned keys only, no cursor step"), true, observed
 		}
 		ok := false
 		for _, p := range keyPins {
